@@ -232,6 +232,42 @@ def abstract_nodes_documented(t, obs):
     return all(abstract_nodes_documented(c, obs) for c in t["k"])
 
 
+def tree_derives(t, obs):
+    """independent reading of `Derives` / `WfTree`: the children of every abstract rule's node are those of one
+    alternative of the rule's resolved body (match -> a terminal, reference -> that rule's node, or a terminal for a
+    match rule; sequence, ordered choice; other operators derive nothing)"""
+    if "t" in t:
+        return True
+    names = obs["names"]
+    if "n" in t and obs["kinds"].get(t["n"]) == "abstract":
+        kids = t["k"]
+
+        def m(b, i):
+            if b == "l":
+                return {i + 1} if i < len(kids) and "t" in kids[i] else set()
+            if "r" in b:
+                if i >= len(kids):
+                    return set()
+                c = kids[i]
+                if "n" in c:
+                    return {i + 1} if c["n"] == names[b["r"]] else set()
+                if "t" in c:
+                    return {i + 1} if obs["kinds"].get(names[b["r"]]) == "match" else set()
+                return set()
+            if "s" in b:
+                cur = {i}
+                for x in b["s"]:
+                    cur = {j for p in cur for j in m(x, p)}
+                return cur
+            if "c" in b:
+                return {j for x in b["c"] for j in m(x, i)}
+            return set()
+
+        if len(kids) not in m(obs["skeleton"][names.index(t["n"])]["body"], 0):
+            return False
+    return all(tree_derives(c, obs) for c in t["k"])
+
+
 def flat(t):
     """the matched text below a node"""
     if "t" in t:
@@ -1214,10 +1250,13 @@ class Prop(Check):
             # Arpeggio's tree against the grammar: the children of every abstract rule's node are those of one
             # alternative of the rule's body (`Derives`, the hypothesis of C03_result_instance / _alternative);
             # bodies with ? * + # or predicates are outside the relation
-            want = abstract_nodes_documented(r["tree"], obs)
+            want = tree_derives(r["tree"], obs)
             if wf != want:
                 return (f"text {r['text']!r}: parse tree {'derives' if wf else 'does not derive'} from the rule bodies "
                         f"in the model, expected {want}")
+            if not wf and abstract_nodes_documented(r["tree"], obs):
+                return (f"text {r['text']!r}: the children of an abstract rule's node are not those of an alternative "
+                        f"of its (documented) body")
         for r, mv in zip(oks, out["vals"]):
             mv = names_of(mv)
             d = val_diff(mv, r["val"])
@@ -1349,7 +1388,9 @@ class Prop(Check):
         d = {"loaded": 0, "rejected_grammars": 0, "texts": 0, "accepted": 0, "objects": 0, "isinstance_pairs": 0,
              "with_abstract_cycle": 0, "with_undocumented_ops": 0, "abstract_nodes_multi_child": 0, "kinds": {},
              "rules": 0, "changing_passes": {}, "nested_only_change_pass": 0, "false_valued_abstract_results": 0,
-             "false_valued_after_match_nonterminal": 0, "false_valued_attribute_values": 0, "base_type_terminals": {}}
+             "false_valued_after_match_nonterminal": 0, "false_valued_attribute_values": 0, "base_type_terminals": {},
+             "trees_with_abstract_node_derived": 0, "trees_not_derived_undocumented_body": 0,
+             "object_results_of_abstract_root": 0}
         for c, o in zip(cases, obs):
             if not isinstance(o, dict) or o.get("load") != "ok":
                 d["rejected_grammars"] += 1
@@ -1377,6 +1418,13 @@ class Prop(Check):
                     d["objects"] += len(r["objs"])
                     d["isinstance_pairs"] += sum(len(m) for _, m in r["objs"])
                     d["abstract_nodes_multi_child"] += self.count_multi(r["tree"], kinds)
+                    if has_abstract_node(r["tree"], kinds):
+                        if tree_derives(r["tree"], o):
+                            d["trees_with_abstract_node_derived"] += 1
+                        else:
+                            d["trees_not_derived_undocumented_body"] += 1
+                    if "o" in r["val"] and o["kinds"].get(r["tree"].get("n")) == "abstract":
+                        d["object_results_of_abstract_root"] += 1
                     self.count_false(r["tree"], kinds, d)
         return {"distribution": d}
 
